@@ -45,6 +45,7 @@ EXHAUSTIVE = True
 SHARD_TIMEOUT = {"quick": 600, "thorough": 2400}
 
 THRESHOLDS = (0, 1, 3, 10**6)
+IMPOSSIBLE = 10**8  # no alignment of <= 5 symbols with entries <= 10^5 scores beyond this
 DIRECTIONS = ("both", "upstream", "downstream")
 DTYPES = ["uint8", "uint16", "uint32", "uint64"]
 
@@ -294,6 +295,11 @@ def check_banded(ctx, env, l1, l2, band, gap, local, max_number, either=False):
         if not _same_inputs(a, s1, s2, c1, c2):
             viol("wrong_sequences", "returned alignment does not hold the two inputs in order")
             return
+        if abs(sc) > IMPOSSIBLE:
+            viol("score_impossible_magnitude", "reported score is far outside the range any alignment of these inputs "
+                 "can have (about +-2^31: arithmetic on the int32 'minus infinity' sentinel wrapped around)",
+                 "|score| <= %d" % IMPOSSIBLE, [sc, _cols_json(t)])
+            return
         prob = A.trace_problem(t, n, m, False)
         if prob is not None:
             viol("invalid_trace", "returned trace is not a valid alignment: " + prob, "valid alignment", _cols_json(t))
@@ -311,8 +317,14 @@ def check_banded(ctx, env, l1, l2, band, gap, local, max_number, either=False):
                      "reported score", sc, [rs, _cols_json(t)])
             return
         if sc > opt:
-            viol("score_above_optimum", "reported score exceeds the optimum of the unrestricted problem", opt,
-                 [sc, _cols_json(t)])
+            fm = "score_above_optimum"
+            if not local and A.is_affine(gap):
+                # diagnosis (names the failure mode only): admissible if gaps of the two sequences may abut?
+                comps = [c for c in A.completions(t, n, m) if A.score_cols(c, c1, c2, env.mat, gap, False) == sc]
+                if comps and all(A.has_abutting_gaps(c) for c in comps) \
+                        and sc <= A.brute(c1, c2, env.mat, gap, mode, forbid_abut=False)[0]:
+                    fm = "score_above_optimum_by_gap_abutting_free_end_gap"
+            viol(fm, "reported score exceeds the optimum of the unrestricted problem", opt, [sc, _cols_json(t)])
             return
         if full and pairs_opt and sc != opt:
             viol("full_band_not_optimal", "band covers every diagonal but the optimum is not reached", opt,
@@ -341,7 +353,7 @@ def run_banded(shard, ctx):
     g = c["banded"][shard["group"]]
     k1, k2 = g["k"]
     env = I.Env(k1, k2, shard["fam"], shard["variant"], shard["embed"])
-    extra_mn = shard["fam"] in c["banded_extra_maxnum_fams"]
+    extra_mn = shard["fam"] in c["banded_extra_maxnum_fams"] and shard["group"] == 0
     rev = shard["fam"] in c["banded_reversed_fams"]
     idx = -1
     for l1 in I.sequences(k1, g["len"][0], 1):
